@@ -7,6 +7,7 @@ import (
 	"path/filepath"
 	"sort"
 	"strconv"
+	"strings"
 	"sync"
 	"time"
 )
@@ -19,7 +20,7 @@ type Violation struct {
 }
 
 func Violf(oracle, format string, a ...any) *Violation {
-	return &Violation{Oracle: oracle, Detail: fmt.Sprintf(format, a...)}
+	return &Violation{Oracle: oracle, Detail: strings.ReplaceAll(fmt.Sprintf(format, a...), "\x00", "<any-message>")}
 }
 
 // Stats is what a worker measured.  Everything in it is counted, never assumed.
